@@ -13,3 +13,4 @@ pub mod util;
 pub use fe::{fe_from_json, fe_hex, fe_limbs, fe_to_json};
 pub use prog::{run_program, CallRecord, Program, ScriptedCircuit};
 pub use rng::ScriptRng;
+pub mod families;
